@@ -11,8 +11,13 @@
    band 0<|a|<=1e-9|b| is dropped).
    Float witness (C15_line_end_rounding_float_refuted, binary64 instance, vm_compute): far from the origin the point at
    t = 1e-12 rounds to before the start and the lookup returns -1.1e-10, outside [0,1] -- known finding C15-line-end-rounding.
-   NOT covered by a theorem: the cubic lookup (a coarse search over the sampling table; within 2% of the length) --
-   hand model through the C16 sampler + search only; floating-point tolerances (1e-9 lines, 1e-6 quadratics). *)
+   Cubic lookup (Proofs/C15cubic.v, directly about Gen/Lookup.v's Cubic_tOfPoint regenerated from cubicbezier.py): whenever it returns t,
+   0 <= t <= 1 and the point at t is at least as close to the query as every regular sample; it returns once the fuel exceeds the length
+   and 50; for a cubic whose speed stays within a factor 2 and a query ON the curve the point at the returned parameter is within 2% of
+   the length as soon as the curve is 103 units long.
+   NOT covered by a theorem: the 2% clause of the cubic lookup for curves whose speed varies by more than a factor 2 or shorter than 103
+   units (short cubics: known finding C15-cubic-short-lookup), searched only; floating-point tolerances of the quadratic lookup (1e-6);
+   the line lookup's float clause is in the C15float statements below. *)
 
 From Flocq Require Import Core.   (* bpow, radix2 for the float statements; imported first so that [float] below is PrimFloat.float *)
 From Coq Require Import PrimFloat.
